@@ -66,7 +66,120 @@ def first_classification(spec):
         bad.append(('C17.first_classification_window', f'{opname} run ({how}) while another {opname} was inside its first classification of the class (lookup of {attr}) returned {out.get("second")!r}; run alone it returns {alone_second!r}'))
     return bad
 
+def concurrent_registration(kind, same_funcs):
+    """two threads register the SAME class in the same namespace; the window is forced from the warnings machinery (the
+    registration of a namedtuple / struct-sequence-like class emits a UserWarning): exactly one succeeds"""
+    import warnings, time
+    _counter[0] += 1
+    ns = f'c17reg{_counter[0]}'
+    base = collections.namedtuple(f'RP{_counter[0]}', ['x', 'y'])
+    cls = type(f'RP{_counter[0]}', (base,), {'__slots__': ()}) if kind == 'namedtuple_subclass' else base
+    barrier = threading.Barrier(2)
+    def hook(*a, **k):
+        try: barrier.wait(1.5)
+        except threading.BrokenBarrierError: pass
+    results = {}
+    def worker(tag):
+        fl = (lambda v: ((v.x, v.y), tag)) if not same_funcs else FL
+        un = (lambda m, c: cls(*c))
+        try:
+            with warnings.catch_warnings():
+                warnings.simplefilter('always')
+                optree.register_pytree_node(cls, fl, un, namespace=ns)
+            results[tag] = ('ok', fl)
+        except ValueError as e:
+            results[tag] = ('ValueError', None)
+        except BaseException as e:   # noqa: BLE001
+            results[tag] = (type(e).__name__, None)
+    FL = lambda v: ((v.x, v.y), 'same')
+    old = warnings.showwarning
+    warnings.showwarning = hook
+    try:
+        ts = [threading.Thread(target=worker, args=(t,), daemon=True) for t in ('A', 'B')]
+        [t.start() for t in ts]; [t.join(20) for t in ts]
+    finally:
+        warnings.showwarning = old
+    bad = []
+    if any(t.is_alive() for t in ts):
+        return [('C17.concurrent_registration_succeeds_exactly_once', f'{kind}: a registering thread never finished (deadlock)')]
+    oks = [t for t, r in results.items() if r[0] == 'ok']
+    if len(oks) != 1 or sorted(r[0] for r in results.values()) != ['ValueError', 'ok']:
+        bad.append(('C17.concurrent_registration_succeeds_exactly_once', f'{kind}: outcomes of two concurrent registrations of one class in one namespace: {sorted((t, r[0]) for t, r in results.items())!r}; expected exactly one success and one ValueError'))
+    else:
+        w = oks[0]
+        entry = optree.register_pytree_node.get(cls, namespace=ns)
+        leaves, spec = optree.tree_flatten(cls(1, 2), namespace=ns)
+        md = spec.entries() and None
+        want_md = 'same' if same_funcs else w
+        got_md = results[w][1](cls(1, 2))[1]
+        if entry is None or entry.flatten_func is not results[w][1]:
+            bad.append(('C17.concurrent_registration_succeeds_exactly_once', f'{kind}: the Python-visible registry entry is not the one of the thread whose registration succeeded ({w})'))
+        if leaves != [1, 2]:
+            bad.append(('C17.concurrent_registration_succeeds_exactly_once', f'{kind}: after the winning registration the class flattens to {leaves!r}'))
+    try: optree.unregister_pytree_node(cls, namespace=ns)
+    except Exception: pass
+    return bad
+
+REENTRANT_SRC = """
+import sys, threading, optree
+how, op = sys.argv[1], sys.argv[2]
+state = {'armed': False, 'fired': False, 'inner': None}
+class K:
+    def __init__(self, v): self.v = v
+    def __hash__(self): return hash(self.v)
+    def __eq__(self, o):
+        if state['armed'] and not state['fired']:
+            state['fired'] = True
+            def second():
+                try: state['inner'] = run(op, X, Y)
+                except BaseException as e: state['inner'] = ('exc', type(e).__name__)
+            if how == 'thread':
+                t = threading.Thread(target=second, daemon=True); t.start(); t.join(10)
+                if t.is_alive(): state['inner'] = ('hang',)
+            else:
+                second()
+        return isinstance(o, K) and o.v == self.v
+    def __lt__(self, o): return self.v < o.v
+    def __repr__(self): return f'K({self.v})'
+def run(op, a, b):
+    if op == 'is_prefix': return a.is_prefix(b)
+    if op == 'is_suffix': return b.is_suffix(a)
+    if op == 'le': return a <= b
+    if op == 'lt': return a < b
+    if op == 'eq': return a == b
+    return a.broadcast_to_common_suffix(b) == b
+A = optree.tree_structure({K(1): 0, K(2): [0, 0], K(3): {K(4): 0}})
+B = optree.tree_structure({K(3): {K(4): (1, 2)}, K(2): [(0, 0), 0], K(1): 0})
+X = optree.tree_structure([{K(7): 0, K(8): 0}, (0, 0), {'a': [0] * 40}])
+Y = optree.tree_structure([{K(8): (0,), K(7): 0}, (0, (0, 0)), {'a': [(0, 0)] * 40}])
+alone_outer, alone_inner = run(op, A, B), run(op, X, Y)
+state['armed'] = True
+try: got_outer = run(op, A, B)
+except BaseException as e: got_outer = ('exc', type(e).__name__, str(e)[:80])
+state['armed'] = False
+bad = []
+if not state['fired']: sys.exit(0)
+if got_outer != alone_outer: bad.append(f'{op} interrupted inside a key comparison ({how}) returned {got_outer!r}; alone it returns {alone_outer!r}')
+if state['inner'] != alone_inner: bad.append(f'{op} run ({how}) while another {op} was inside a key comparison returned {state["inner"]!r}; alone it returns {alone_inner!r}')
+print('; '.join(bad)); sys.exit(1 if bad else 0)
+"""
+
+def overlapping_comparison(how, op):
+    import subprocess, sys, os
+    r = subprocess.run([sys.executable, '-c', REENTRANT_SRC, how, op], capture_output=True, text=True,
+                       env=dict(os.environ, PYTHONPATH=os.pathsep.join(sys.path), MALLOC_PERTURB_='165'), cwd='/', timeout=120)
+    if r.returncode == 0:
+        return []
+    what = r.stdout.strip()[:400] if r.returncode == 1 else f'child interpreter died with status {r.returncode}: {r.stderr.strip()[-200:]}'
+    return [('C17.overlapping_treespec_comparisons', what)]
+
 def cases(tier):
+    for how in ('thread', 'reentrant'):
+        for op in ('is_prefix', 'is_suffix', 'le', 'lt', 'eq', 'broadcast'):
+            yield ('overlap', how, op)
+    for kind in ('namedtuple', 'namedtuple_subclass'):
+        for same in (False, True):
+            yield ('concreg', kind, same)
     for attr in ('_fields', '_make', '_asdict'):
         for how in ('thread', 'reentrant'):
             for opname in ('tree_leaves', 'tree_structure', 'is_namedtuple', 'tree_flatten_with_path', 'tree_map'):
@@ -79,6 +192,10 @@ def cases(tier):
 def check(spec):
     if spec[0] == 'first':
         return first_classification(spec)
+    if spec[0] == 'overlap':
+        return overlapping_comparison(spec[1], spec[2])
+    if spec[0] == 'concreg':
+        return concurrent_registration(spec[1], spec[2])
     entry, nil, position = spec
     inside, resume = threading.Event(), threading.Event()
     log = []
